@@ -11,6 +11,7 @@
    call number, success) and `succs m k tr` its successful constructions of key k = (type, args) by
    memoizer m.                                                                                       *)
 From FluentV Require Import Base.Bytes Base.Outcome Memo.Memoizer Memo.Concurrent Memo.MemoProofs.
+From FluentV Require Import Memo.FineGrained Memo.FineGrainedProofs.
 
 Section C14.
 Variables I E R : Type.
@@ -231,3 +232,211 @@ Example C14_example_schedules :
       [[((0, [0%N], 1), Ok (1, (en, 0, [0%N], 1))); ((0, [2; 1]%N, 2), Ok (2, (en, 0, [2; 1]%N, 2)))];
        [((0, [2; 1]%N, 3), Err 0); ((0, [0%N], 4), Ok (4, (en, 0, [0%N], 1)))]] ].
 Proof. vm_compute. reflexivity. Qed.
+
+(* ==================================================================================================================
+   LOCK GRANULARITY.  The theorems C14_schedules* above take one with_try_get as one atomic step.  Below that is no
+   longer assumed: Memo/FineGrained.v makes the Mutex of intl-memoizer/src/concurrent.rs explicit and splits one
+   with_try_get into the micro-steps a thread really performs, any of which may be interleaved with the micro-steps of
+   any other thread:
+       Lock        concurrent.rs:32  let mut map = self.map.lock().unwrap();       (blocks while another thread holds it)
+       LookupType  concurrent.rs:33  map.entry::<HashMap<I::Args, I>>().or_insert_with(HashMap::new)
+       LookupArgs  concurrent.rs:37  match cache.entry(args.clone()) { Occupied .. (l.38) | Vacant .. (l.39) }
+       Construct   concurrent.rs:40  let val = I::construct(self.lang.clone(), args)?;    (`?`: on Err straight to Unlock)
+       Insert      concurrent.rs:41  entry.insert(val)
+       Callback    concurrent.rs:44  Ok(cb(e))
+       Unlock      concurrent.rs:45  end of scope: the guard `map` is dropped, the result returned
+   A fine schedule is ANY list of thread ids (a blocked / finished / non-existent thread scheduled = no-op).  Only the
+   Lock step looks at the mutex; mutual exclusion and atomicity are the theorems.  What remains a reading of the code
+   is now only (a) the order of these seven micro-steps in the source text and the scope of the guard, (b) that
+   std::sync::Mutex is a mutex.                                                                                      *)
+Section C14Fine.
+Variables I E R : Type.
+Variable construct : lang -> type_id -> args -> nat -> result I E.
+Variable callback : cb_id -> I -> R.
+
+Notation fine_run := (fine_run I E R construct callback).
+Notation run_schedule := (run_schedule I E R construct callback).
+Notation lock_order := (lock_order I E R construct callback).
+Notation f_init := (f_init I E R).
+Notation f_proj := (f_proj I E R).
+Notation f_abs := (f_abs I E R construct callback).
+
+(* mutual exclusion, for every thread programs and EVERY fine schedule, at every point: two threads that are both
+   between their Lock and their Unlock are the same thread, and it is the one recorded as holder of the mutex *)
+Theorem C14_fine_grained_mutex : forall l threads fs t1 t2 th1 th2,
+  let s := fine_run l threads fs in
+  nth_error (f_threads I E R s) t1 = Some th1 -> in_cs I E R (ft_pc I E R th1) = true ->
+  nth_error (f_threads I E R s) t2 = Some th2 -> in_cs I E R (ft_pc I E R th2) = true ->
+  t1 = t2 /\ f_holder I E R s = Some t1.
+Proof.
+  intros l threads fs t1 t2 th1 th2 s H1 C1 H2 C2.
+  pose proof (fine_mutex I E R construct callback l threads fs) as HM.
+  split; [exact (mutex_exclusive I E R _ _ _ _ _ HM H1 C1 H2 C2)|].
+  exact (proj1 (mx_inside I E R _ HM _ _ H1 C1)).
+Qed.
+
+(* "for the thread-safe variant any interleaving of lookups from any number of threads" — the reduction: for EVERY
+   fine schedule fs there is a coarse schedule cs (the thread ids in the order in which their Lock steps succeeded)
+   such that
+   (1) at every point of the run, the observable state (map, construct counter, construct log, per-thread results and
+       remaining programs) in which the one thread inside the critical section — if any — has run on to its Unlock
+       (`f_abs`; for a thread that has just locked the pending work is literally `with_try_get`) is the state of the
+       atomic-step model of Memo/Concurrent.v under cs;
+   (2) whenever no thread is inside a critical section the observable state itself is that state;
+   (3) in particular when all threads have finished, and then cs runs every thread to completion too.
+   Hence C14_schedules .. C14_schedules_fail (and through C14_schedules the sequential theorems) hold of every
+   interleaving of the micro-steps.                                                                               *)
+Theorem C14_fine_grained_reduces_to_atomic : forall l threads fs,
+  let s := fine_run l threads fs in
+  exists cs, cs = lock_order (f_init l threads) fs /\
+    f_abs s = run_schedule l threads cs /\
+    (f_holder I E R s = None -> f_proj s = run_schedule l threads cs) /\
+    (f_finished I E R s = true ->
+       f_holder I E R s = None /\ f_proj s = run_schedule l threads cs /\
+       finished I E R (run_schedule l threads cs) = true).
+Proof.
+  intros l threads fs s. exists (lock_order (f_init l threads) fs). split; [reflexivity|].
+  split; [exact (fine_reduction_abs I E R construct callback l threads fs)|].
+  split; [exact (fine_reduction I E R construct callback l threads fs)|].
+  exact (fine_reduction_finished I E R construct callback l threads fs).
+Qed.
+
+(* the seven micro-steps of one request, when nothing is interleaved, compose to the atomic step: from any reachable
+   state in which the mutex is free, a thread with a request scheduled alone is outside again after at most 7
+   micro-steps, its Lock succeeded exactly once, and the observable effect is `sched_step` = with_try_get of lib.rs *)
+Theorem C14_fine_grained_request_is_with_try_get : forall l threads fs tid th rq rest,
+  let s := fine_run l threads fs in
+  f_holder I E R s = None -> nth_error (f_threads I E R s) tid = Some th -> ft_prog I E R th = rq :: rest ->
+  exists k, 1 <= k <= 7 /\
+    f_holder I E R (fine_run_from I E R construct callback s (repeat tid k)) = None /\
+    lock_order s (repeat tid k) = [tid] /\
+    f_proj (fine_run_from I E R construct callback s (repeat tid k)) =
+      sched_step I E R construct callback (f_proj s) tid.
+Proof.
+  intros l threads fs tid th rq rest s.
+  exact (fine_request_is_with_try_get I E R construct callback s tid th rq rest
+           (fine_mutex I E R construct callback l threads fs)).
+Qed.
+
+(* "a formatter for a given (type, arguments) is constructed at most once per memoizer while construction succeeds",
+   under EVERY interleaving of the micro-steps and at EVERY point of it (also while a thread is inside the critical
+   section): the construct log never holds two successful constructions of one key *)
+Theorem C14_fine_grained_once : forall l threads fs k,
+  length (filter (c_is_succ k) (f_trace I E R (fine_run l threads fs))) <= 1.
+Proof. exact (fine_once I E R construct callback). Qed.
+
+(* results = those of the induced sequential program: at every quiescent point of every fine schedule the run is the
+   sequential model of Memo/Memoizer.v executing the requests in lock order on one memoizer — same table, counter and
+   construct log, every thread got exactly the results the sequential run gives to its requests, in program order *)
+Theorem C14_fine_grained_sequential : forall l threads fs,
+  let s := fine_run l threads fs in
+  let lin := linearize threads (lock_order (f_init l threads) fs) in
+  f_holder I E R s = None ->
+  exists rs,
+    outputs I E R construct callback (init I) (seq_program l lin) = OutMemo 0 :: map OutRes rs /\
+    length rs = length lin /\
+    (handle I (exec I E R construct callback (init I) (seq_program l lin)) 0 = Some 0 /\
+     hfind I 0 (w_heap I (exec I E R construct callback (init I) (seq_program l lin))) = Some (f_memo I E R s) /\
+     w_counter I (exec I E R construct callback (init I) (seq_program l lin)) = f_counter I E R s /\
+     w_trace I (exec I E R construct callback (init I) (seq_program l lin)) = map (pair 0) (f_trace I E R s)) /\
+    (forall tid, tid < length threads ->
+       nth tid (map (ft_results I E R) (f_threads I E R s)) [] = pick E R tid (combine lin rs)) /\
+    (forall tid, tid < length threads ->
+       map fst (nth tid (map (ft_results I E R) (f_threads I E R s)) []) ++
+       nth tid (map (ft_prog I E R) (f_threads I E R s)) [] = nth tid threads []).
+Proof. exact (fine_refines I E R construct callback). Qed.
+
+Theorem C14_fine_grained_complete : forall l threads fs tid,
+  f_finished I E R (fine_run l threads fs) = true -> tid < length threads ->
+  map fst (nth tid (map (ft_results I E R) (f_threads I E R (fine_run l threads fs))) []) = nth tid threads [].
+Proof. exact (fine_complete I E R construct callback). Qed.
+
+(* "every callback for that key runs against that one instance and its result is returned unchanged", fine-grained *)
+Theorem C14_fine_grained_same_inst : forall l threads fs tid t a cb r,
+  let s := fine_run l threads fs in
+  f_holder I E R s = None -> tid < length threads ->
+  In ((t, a, cb), Ok r) (nth tid (map (ft_results I E R) (f_threads I E R s)) []) ->
+  exists e i, filter (c_is_succ (t, a)) (f_trace I E R s) = [e] /\
+              ev_lang e = l /\ construct l t a (ev_n e) = Ok i /\ r = callback cb i.
+Proof. exact (fine_same_inst I E R construct callback). Qed.
+
+(* "a failed construction is returned as the error", fine-grained *)
+Theorem C14_fine_grained_fail : forall l threads fs tid t a cb er,
+  let s := fine_run l threads fs in
+  f_holder I E R s = None -> tid < length threads ->
+  In ((t, a, cb), Err er) (nth tid (map (ft_results I E R) (f_threads I E R s)) []) ->
+  exists e, In e (f_trace I E R s) /\ ev_key e = (t, a) /\ ev_ok e = false /\ construct l t a (ev_n e) = Err er.
+Proof. exact (fine_err I E R construct callback). Qed.
+
+(* conversely the fine-grained model loses no behaviour: every schedule of the atomic-step model is the lock order of
+   some fine schedule with the same observable state — the two models have exactly the same quiescent outcomes *)
+Theorem C14_fine_grained_realizes_atomic : forall l threads cs,
+  exists fs, f_holder I E R (fine_run l threads fs) = None /\
+             f_proj (fine_run l threads fs) = run_schedule l threads cs.
+Proof. exact (fine_realizes I E R construct callback). Qed.
+
+End C14Fine.
+
+(* sensitivity — the theorems above really depend on the critical section reaching from the lookup (concurrent.rs:37)
+   to the insert (concurrent.rs:41).  In the check-then-act variant `broken_step` of Memo/FineGrained.v
+   (lock; lookup; UNLOCK; construct; LOCK; insert; callback; unlock — same micro-steps, same mutex, only the guard's
+   scope differs) there are two threads and a schedule under which one key is successfully constructed twice and the
+   two callbacks run against different instances: C14_fine_grained_once and C14_fine_grained_same_inst fail for it *)
+Theorem C14_check_then_act_refuted :
+  exists threads fs,
+    let s := broken_run nat unit nat bx_construct bx_callback [] threads fs in
+    b_finished nat unit nat s = true /\ b_holder nat unit nat s = None /\
+    length (filter (c_is_succ (0, [])) (b_trace nat unit nat s)) = 2 /\
+    map (bt_results nat unit nat) (b_threads nat unit nat s) = [[((0, [], 7), Ok 0)]; [((0, [], 8), Ok 1)]].
+Proof. exact fine_broken_constructs_twice. Qed.
+
+(* non-vacuity: three threads ask for the same key; thread 1 wins the mutex, threads 0 and 2 are scheduled while it is
+   inside (no-ops: blocked in lock()), thread 2 gets the mutex next, then thread 0.  One construction (call number 0),
+   three callbacks against that instance; the induced coarse schedule is [1; 2; 0] and the final state is the coarse
+   model's under it. *)
+Example C14_example_fine_grained :
+  let en := [101; 110]%N in
+  let threads := [[(0, [0%N], 1)]; [(0, [0%N], 2)]; [(0, [0%N], 3)]] in
+  let fs := [1; 0; 1; 2; 1; 0; 1; 1; 2; 1; 1;  2; 0; 2; 2; 2; 2;  0; 0; 0; 0; 0] in
+  let X := (cb_id * ex_inst)%type in
+  let s := fine_run ex_inst nat X ex_construct ex_callback en threads fs in
+  fine_actions ex_inst nat X ex_construct ex_callback (f_init ex_inst nat X en threads) fs
+  = [(1, Some MLock); (0, None); (1, Some MLookupType); (2, None); (1, Some MLookupArgs); (0, None);
+     (1, Some MConstruct); (1, Some MInsert); (2, None); (1, Some MCallback); (1, Some MUnlock);
+     (2, Some MLock); (0, None); (2, Some MLookupType); (2, Some MLookupArgs); (2, Some MCallback); (2, Some MUnlock);
+     (0, Some MLock); (0, Some MLookupType); (0, Some MLookupArgs); (0, Some MCallback); (0, Some MUnlock)] /\
+  lock_order ex_inst nat X ex_construct ex_callback (f_init ex_inst nat X en threads) fs = [1; 2; 0] /\
+  f_finished ex_inst nat X s = true /\
+  f_proj ex_inst nat X s = run_schedule ex_inst nat X ex_construct ex_callback en threads [1; 2; 0] /\
+  f_trace ex_inst nat X s = [mk_cevent en 0 [0%N] 0 true] /\
+  map (ft_results ex_inst nat X) (f_threads ex_inst nat X s)
+  = [[((0, [0%N], 1), Ok (1, (en, 0, [0%N], 0)))];
+     [((0, [0%N], 2), Ok (2, (en, 0, [0%N], 0)))];
+     [((0, [0%N], 3), Ok (3, (en, 0, [0%N], 0)))]].
+Proof. vm_compute. repeat split. Qed.
+
+(* the same three threads in the check-then-act variant: all three miss before anyone inserts -> three constructions *)
+Example C14_example_check_then_act :
+  let en := [101; 110]%N in
+  let threads := [[(0, [0%N], 1)]; [(0, [0%N], 2)]; [(0, [0%N], 3)]] in
+  let fs := [0; 0; 0; 0;  1; 1; 1; 1;  2; 2; 2; 2;  0; 1; 2;  0; 0; 0; 0;  1; 1; 1; 1;  2; 2; 2; 2] in
+  let X := (cb_id * ex_inst)%type in
+  let s := broken_run ex_inst nat X ex_construct ex_callback en threads fs in
+  b_finished ex_inst nat X s = true /\
+  length (filter (c_is_succ (0, [0%N])) (b_trace ex_inst nat X s)) = 3 /\
+  map (bt_results ex_inst nat X) (b_threads ex_inst nat X s)
+  = [[((0, [0%N], 1), Ok (1, (en, 0, [0%N], 0)))];
+     [((0, [0%N], 2), Ok (2, (en, 0, [0%N], 1)))];
+     [((0, [0%N], 3), Ok (3, (en, 0, [0%N], 2)))]].
+Proof. vm_compute. repeat split. Qed.
+
+Print Assumptions C14_fine_grained_mutex.
+Print Assumptions C14_fine_grained_reduces_to_atomic.
+Print Assumptions C14_fine_grained_request_is_with_try_get.
+Print Assumptions C14_fine_grained_once.
+Print Assumptions C14_fine_grained_realizes_atomic.
+Print Assumptions C14_fine_grained_sequential.
+Print Assumptions C14_fine_grained_complete.
+Print Assumptions C14_fine_grained_same_inst.
+Print Assumptions C14_fine_grained_fail.
+Print Assumptions C14_check_then_act_refuted.
